@@ -17,6 +17,9 @@ CHECKS = {
  'C13': dict(engine='CCV', cat='proof', tech=TECH_CCV,
    text='Function contract on HistogramNew::Process enforced by CBMC dfcc on the verbatim body over IEEE doubles: memory safety (no write outside the bins, no undefined conversion/overflow) for ALL finite inputs and both modes, and the single-bin frame (at most one bin changes, by exactly the weight).',
    note='Trusted: CBMC (front end, dfcc, SAT back end), its floor/isnan models, the stub struct standing for the class declaration (member names/types checked against the header).', ref='DESIGN.md section 5 C13'),
+ 'C18': dict(engine='CCV+RVC', cat='proof', tech=TECH_CCV + '; ' + TECH_RVC,
+   text='wildcmp: functional contract (result != 0 <=> glob match) checked against the recursive specification for all pattern/string buffers up to N bytes (bounded, N = 4 quick / 6 thorough) plus an unbounded memory-safety and termination proof by loop contracts on the verbatim body; RangeParser: acceptance contract of ParseBlock (stride != 0, direction-consistent), loop-free step contract of iterator::operator++ (induction gives exact in-order enumeration and termination, negative strides included), print/parse round trip; IndexParser::CreateIndexString run-length contract for up to 4 (6) indices.',
+   note='Trusted: CBMC, z3, string splitting / std::stoi / std::to_string / std::set as assumed contracts; bounds as stated (reported under coverage.bounded). Tokenizer, BeadList::Generate and CreateIndexVector are not decided.', ref='DESIGN.md section 5 C18'),
  'C20': dict(engine='CCV', cat='proof', tech='contract-based deductive verification: the real unitconverter.h compiled whole by CBMC, every conversion identity over all enumerators as a closed IEEE obligation (exhaustive finite domain)',
    text='Reciprocity, transitivity, derived-unit quotients, molar = per-particle, agreement of tools::conv constants with UnitConverter and with CODATA 2018 to four significant digits, reader/writer factor reciprocity and element-table self-consistency, for every enumerator pair/triple: the domain is finite and fully enumerated.',
    note='Trusted: CBMC C++ front end / IEEE constant evaluation, the CODATA values in contracts/C20/reference.json, counted regex extraction of constants.h and elements.cc. One open known finding (kcal2kj).', ref='DESIGN.md section 5 C20'),
